@@ -565,11 +565,7 @@ func (e *Engine) findIndicesReverseAnchored(haystack []byte) (int, int, bool) {
 		return e.findIndicesNFA(haystack)
 	}
 	atomic.AddUint64(&e.stats.DFASearches, 1)
-	match := e.reverseSearcher.Find(haystack)
-	if match == nil {
-		return -1, -1, false
-	}
-	return match.Start(), match.End(), true
+	return e.reverseSearcher.FindIndices(haystack)
 }
 
 // findIndicesReverseSuffix searches using reverse suffix optimization - zero alloc.
